@@ -97,6 +97,12 @@ def handle (r : Req) : Option String :=
   | "lcdspec", [offset, edges, paths, result] =>
     let lat := latOf (parseEdges edges)
     some (boolS (Spec.Lcd.agreesB lat (offset.toNat?.getD 1) (parsePaths paths) (parseResult result)))
+  | "lcdcycles", [offset, edges, result] =>
+    -- number of reported items that are NOT genuine cycles with correct latency, and the first one
+    let es := parseEdges edges
+    let edge := fun (s d : Nat) => es.lookup (s, d)
+    let bad := (parseResult result).filter fun r => !Spec.Lcd.isCycleB edge (offset.toNat?.getD 1) r.1 r.2
+    some (toString bad.length ++ " " ++ (match bad.head? with | some b => showDeps b.1 | none => "-"))
   | "lcdsub", [part, full] => some (boolS (Spec.Lcd.subResultB (parseResult part) (parseResult full)))
   | _, _ => none
 
